@@ -126,12 +126,15 @@ class Puppet:
             await self.do(w, self.items(self.ncmd, verb), verb)
 
 
+LOGIN = ["u", "p", "a"]   # what the login call supplies (C20 puts its password classes here)
+
+
 async def perform(client, op, a):
     if op == "connect":
         await client.connect("127.0.0.1", CTL)
         return 0
     if op == "login":
-        await client.login("u", "p", "a")
+        await client.login(*LOGIN)
     elif op == "pwd":
         await client.get_current_directory()
     elif op == "cwd":
